@@ -69,6 +69,8 @@ static inline int64_t clock_now(void) { return g_now; }
 extern char vf_pad0, vf_pad1, vf_pad2, vf_pad3, vf_pad4, vf_pad5;
 #define VF_PAD vf_pad0, vf_pad1, vf_pad2, vf_pad3, vf_pad4, vf_pad5
 
+bool nondet_bool(void);
+
 /* --------------------------------------------------- ghost indices (pointwise) */
 extern size_t G_i;                   /* arbitrary, never assigned by code under proof */
 extern size_t G_j;
